@@ -5,6 +5,21 @@ ROOT = os.path.dirname(os.path.dirname(os.path.abspath(__file__)))
 
 TECH = "deterministic simulation with fault injection: "
 CHECKS = {
+ "C05": dict(
+   text="Whole-machine simulation: constant-time programs run for K frames under a seeded host driving schedule (FrameCount(n), Max mode stopped by scripted stopwatch readings, breakpoint stops) with an exact T-state conservation equation and interrupt counter, plus INT-window and frame-end single-step probes on both machines. Sampling, not proof.",
+   note="Programs run in uncontended RAM so instruction times are the documented ones (C03); arbitrary instruction mixes across frame boundaries are covered by C04's instruction-level runs; uses hooks verif_frame_clocks/verif_set_frame_clocks.",
+   technique=TECH+"seeded host-call schedules and scripted stopwatch on the real emulator, exact T-state accounting",
+   ref="5 (C05)"),
+ "C06": dict(
+   text="Seeded histories of paging-port writes (all values, lock early/late/never, decoy ports), CPU reads/writes and sweeps on the real machine, checked operation by operation against RefMem (8 banks + ROMs + latch), with embedded and host-supplied (chunked asset) ROM sets. Sampling, not proof.",
+   note="Trusts RefMem (zxref::mem); paging writes use odd ports with A15=0, A1=0, A5-A7=1 so that no other device is selected (port decode itself is C07).",
+   technique=TECH+"seeded operation histories on the real machine checked against a reference memory model",
+   ref="5 (C06)"),
+ "C16": dict(
+   text="The property this technique is made for: one scenario (machine, content, frame-keyed input script) is executed under several host drivings - call slicing, Max mode with arbitrary scripted stopwatch readings, breakpoint stops and resumes, sound off, drain always/sometimes/never, five asset implementations (BufferCursor, chunking asset, GzipAsset, real FileAsset, 1-byte reads) - and the hash of all CPU state, RAM, paging, clock, both frame buffers (and PCM for draining drivings) must be identical at every compared frame boundary. The system is its own oracle under a different schedule. Sampling, not proof.",
+   note="Inputs are applied at frame boundaries only; audio is compared only between drivings that drain every frame; repository snapshots, ROM boot and random programs are the workloads.",
+   technique=TECH+"differential execution of one scenario under seeded host schedules, stopwatch scripts, breakpoints and asset chunkings",
+   ref="5 (C16)"),
  "C01": dict(
    text="Lock-step refinement of the real Z80 core against an independent reference CPU (RefZ80) under seeded instruction streams: program runs (hidden MEMPTR/Q state carried across instructions) and stratified state sweeps over all 7 encoding pages x 256 opcodes; every instruction's registers, hidden state and ordered bus value history are compared. No schedule or fault dimension exists in this property; it is decided by the reference-model half of the technique. Sampling, not proof.",
    note="Truth is RefZ80 (zxref::z80), written from documentation and validated by ZEXALL and its cycle-sum self-check; listed don't-cares are truncated and counted; Q after a repeating block iteration is unobservable and not compared.",
